@@ -266,6 +266,14 @@ def _eval(spec):
         r["bitstrings"].append(_call(QsysResult(shots).register_bitstrings, strict_names=sn, strict_lengths=sl))
         r["counts"].append(_call(QsysResult(shots).register_counts, strict_names=sn, strict_lengths=sl))
     r["collated"] = _call(QsysResult(shots).collated_counts)
+    # the same shot object converted, its entries edited in place (same length), converted again:
+    # the property speaks about the entries the shot has at the time of the call
+    r["edited"] = []
+    for sh in shots:
+        obj = QsysShot(list(sh))
+        _call(obj.to_register_bits)
+        obj.entries.reverse()
+        r["edited"].append(_call(obj.to_register_bits))
     _last[0], _last[1] = spec, r
     return r
 
@@ -406,6 +414,13 @@ def oracle(spec):
                 continue
         if not _verdict(site, res, exp, fails, "non-bit" if exp is Reject else "bits", lambda a, b: a == b):
             fails.append(Failure(site, "differs-from-replay", f"shot {i}: got {res[1]!r}, replay gives {exp!r}"))
+        if shots and len(sh) > 1:
+            rev = list(reversed(sh))
+            expr = _try(ref_replay, rev)
+            rese = r["edited"][i]
+            if not _verdict(site, rese, expr, fails, "non-bit" if expr is Reject else "bits-after-edit", lambda a, b: a == b):
+                fails.append(Failure(site, "stale-after-entries-edited-in-place",
+                                     f"shot {i} reversed: got {rese[1]!r}, replay gives {expr!r}"))
         resc = r["collate"][i]
         if not _is_ok(resc) or resc[1] != ref_collate(sh):
             fails.append(Failure("QsysShot.collate_tags", "collate-differs", f"shot {i}: {resc[1]!r}"))
